@@ -463,7 +463,18 @@ def run(project: Project, rep, tier: str):
             rep.discharged("LX-DEG", fi, n, "trailing infinite bar is detected on the death column")
         else:
             rep.refuted("LX-DEG", fi, n, f"the infinite-bar test `{ast.unparse(t)}` does not look at the death column")
-    for rn, n in (("LX-COPY", 1), ("LX-SORT", 1), ("LX-ITER", 1), ("LX-DEG", 2), ("LX-NOCOPY", 1), ("LX-INSERT", 1)):
+    # ---------------- LX-SWEEP (bounded): the sweep followed per ordering class of the end-points
+    from ..core.report import Report
+    from .sweep import check_sweep
+    pre = Report("C03-sweep")
+    st_sweep = check_sweep(project, pre, max_bars=2)
+    if st_sweep == "unmodelled":
+        # a sweep written in a way the evaluator cannot follow is left to the site rules above
+        rep.note("LX-SWEEP could not follow the sweep: " + (pre.errors[0] if pre.errors else "")[:200])
+    else:
+        check_sweep(project, rep, max_bars=3, sample3=1500 if tier == "thorough" else 200)
+    for rn, n in (("LX-COPY", 1), ("LX-SORT", 1), ("LX-ITER", 1), ("LX-DEG", 2), ("LX-NOCOPY", 1), ("LX-INSERT", 1),
+                  ("LX-SWEEP", 0 if st_sweep == "unmodelled" else 1)):
         rep.floor(rn, n)
 
 
